@@ -156,18 +156,23 @@ func init() {
 						r.Violation("TimeFromTime64|wrong-value:order not preserved|"+c04Class(t0s, c.t.Unix()), c.id,
 							map[string]any{"t_prev": prevT.String(), "t": c.t.String(), "r_prev": prev.String(), "r": got.String(), "t0": t0.String()})
 					}
-					// Time64 ordering within one era: this case against the one before it in time order
-					if haveOrd && ntpEra(ordT.Unix()) == ntpEra(c.t.Unix()) && ordT.Unix() >= ntpEpochUnix {
+					// Time64 ordering: this case against the one before it in time order, if they are less than
+					// 2^31 s apart (timestamps are compared like serial numbers, also across an era boundary)
+					if haveOrd && c.t.Unix()-ordT.Unix() < halfEra-1 && ordT.Unix() >= ntpEpochUnix {
 						a, b := ntp.Time64FromTime(ordT), ntp.Time64FromTime(c.t)
 						if b.Before(a) || a.After(b) || (a != b && (!a.Before(b) || !b.After(a))) {
-							r.Violation("Time64.Before/After|wrong-value:disagrees with time order in one era", c.id,
+							r.Violation("Time64.Before/After|wrong-value:disagrees with the order of two times less than 2^31 s apart", c.id,
 								map[string]any{"t_prev": ordT.String(), "t": c.t.String()})
 						}
 						if a == b && (a.Before(b) || a.After(b)) {
 							r.Violation("Time64.Before/After|wrong-value:equal times compare unequal", c.id, nil)
 						}
 						if (a.Seconds < 1<<31) != (b.Seconds < 1<<31) {
-							r.Class("Time64 order across the middle of an era")
+							if ntpEra(ordT.Unix()) == ntpEra(c.t.Unix()) {
+								r.Class("Time64 order across the middle of an era")
+							} else {
+								r.Class("Time64 order across an era boundary")
+							}
 						}
 					}
 					ordT, haveOrd = c.t, true
@@ -258,7 +263,7 @@ func init() {
 		r.Assume("times not before the NTP epoch 1900-01-01")
 		r.Finish("references every ~97 days 1970..2450 plus +-{0,1,2,10,3600,2^31-1,2^31,20y} s around the era boundaries 2036/2172/2308/2444, each with sub-second parts {0, 999999999, random}; "+
 			"t = t0 + d for d in a boundary pool {-2^31,-2^31+1,-1,0,1,2^31-2,2^31-1,...} x 17 sub-second values plus seeded random d (uniform, near t0, near era boundaries); oracle: t-1ns <= back <= t, "+
-			"results non-decreasing over the sorted t of one reference, Time64.Before/After agree with time order within one era; plus a sub-second sweep (stride in quick, all 10^9 ns in thorough) and a fraction sweep "+
+			"results non-decreasing over the sorted t of one reference, Time64.Before/After agree with the order of times less than 2^31 s apart (also across an era boundary); plus a sub-second sweep (stride in quick, all 10^9 ns in thorough) and a fraction sweep "+
 			"(stride in quick, all 2^32 in thorough). Cases are distinct by construction (distinct (t0,t) pairs); classes = era relation of t0 and t", 4)
 	})
 }
